@@ -22,11 +22,15 @@ impl Stamps {
             2 => (-5_000_000_000, 10_000_000_000),
             3 => (1i64 << 40, 1 << 30),
             4 => (i64::MAX - 2_000_000, 1_000_000),
-            _ => (i64::MIN + 1_000, 1_000_000),
+            _ => (*rng.pick(&[i64::MIN + 1_000, i64::MIN]), 1_000_000),
         };
         Stamps { used: BTreeSet::new(), base, span, tick: 0, monotone }
     }
     fn next(&mut self, rng: &mut Rng) -> i64 {
+        if self.base == i64::MIN && !self.monotone && !self.used.contains(&i64::MIN) && rng.chance(0.3) {
+            self.used.insert(i64::MIN);
+            return i64::MIN;
+        }
         loop {
             let t = if self.monotone {
                 self.tick += rng.range(1, (self.span / 64).max(2));
@@ -569,12 +573,12 @@ pub fn gen_c20(prop: &str, tier: Tier, rng: &mut Rng, seed: u64, run: u64) -> Pl
             match specs[d] {
                 DevSpec::Act | DevSpec::Pid(..) => {
                     if rng.chance(fault) {
-                        plan.push("MREJ", &[d as i64, rng.range(1, 2)]);
+                        plan.push("MREJ", &[d as i64, rng.range(1, 3)]);
                     } else if rng.chance(0.3) {
                         plan.push("MREJ", &[d as i64, 0]);
                     }
                     if rng.chance(fault * 0.5) {
-                        plan.push("MUERR", &[d as i64, rng.range(1, 2)]);
+                        plan.push("MUERR", &[d as i64, rng.range(1, 3)]);
                     } else if rng.chance(0.3) {
                         plan.push("MUERR", &[d as i64, 0]);
                     }
@@ -584,7 +588,7 @@ pub fn gen_c20(prop: &str, tier: Tier, rng: &mut Rng, seed: u64, run: u64) -> Pl
                     if r < fault {
                         plan.push("ENCN", &[d as i64]);
                     } else if r < 2.0 * fault {
-                        plan.push("ENCE", &[d as i64, rng.range(1, 2)]);
+                        plan.push("ENCE", &[d as i64, rng.range(1, 3)]);
                     } else if rng.chance(0.7) {
                         let t = st.next(rng);
                         // half of the readings only become current inside the inner update()
@@ -592,7 +596,7 @@ pub fn gen_c20(prop: &str, tier: Tier, rng: &mut Rng, seed: u64, run: u64) -> Pl
                         plan.push(code, &[d as i64, t, fb(rng.moderate_f32()), fb(rng.moderate_f32()), fb(rng.moderate_f32())]);
                     }
                     if rng.chance(fault * 0.5) {
-                        plan.push("ENCUERR", &[d as i64, rng.range(1, 2)]);
+                        plan.push("ENCUERR", &[d as i64, rng.range(1, 3)]);
                     } else if rng.chance(0.3) {
                         plan.push("ENCUERR", &[d as i64, 0]);
                     }
